@@ -1,12 +1,12 @@
 """C09 — returned values belong to the caller; pooled nodes come back clean."""
 import json, os, random
-import common, gen, sqlgen
+import common, gen, gen09, own09, sqlgen
 from common import Report
 
 MANIFEST = dict(
-    technique='Coq proof over a generic pool model (all put/get/GC histories) + per-field release table regenerated by reflective probe each run + real-pool history exploration and hold/release snapshot histories',
-    text='Theorem get_is_fresh_except: for every history of releases of arbitrary dirty objects through any release path, Gets and garbage collections, every object a pool hands out is fresh on every field (no size bound), given the per-(path, type, field) reset table, which is re-derived from the compiled code on every run by populating every field of every pooled type, releasing and re-obtaining it; the table hypothesis is discharged by complete evaluation. The ownership clause is explored by parse/hold/release/pool-churn/tokenizer-reuse histories with deep snapshots (exploration, not proof).',
-    note=common.BASE_NOTE + 'sync.Pool modelled as nondeterministic choice among pooled objects or a new one; ownership/aliasing clause is exploration-level.',
+    technique='Coq proofs over (1) a generic pool model (all put/get/GC histories) with the per-field release table and (2) a heap/ownership model of the release paths (all interleavings of tree building, release, pool get/put by other users and garbage collection, any number of trees) with release-descent, sharing and aliasing tables; all tables are regenerated from the compiled code by reflective/behavioural probes on every run; real-pool histories run through the Coq model must agree on pool content and on the objects of every held tree',
+    text='Cleanliness: theorem get_is_fresh_except - after any history of releases of arbitrary dirty objects through any release path, Gets and collections, every object a pool hands out is fresh on every field. Ownership: theorems no_double_ownership (the pools never hold an object twice, no caller-held tree reaches a pooled object, no object is reachable from the trees of two holders), held_results_stable (a tree its holder has not released reads the same and stays out of the pools whatever other holders, releases and the collector do later) and release_does_not_touch_other_trees, for every well-formed history of Model/Own.v instantiated with the release tables of the current code: which types ReleaseAST / Put<X>Statement / PutExpression put into pools, which child slots they go on into (nested statements under sub-query expressions, FROM/JOIN items, GROUP BY, HAVING, windows are dropped, not pooled), the work-queue budget (objects beyond it are dropped), that a Put leaves no child reference behind, that a release writes only what it puts, and that the slots in which the parser shares one object between two places (the derived-table SelectStatement of FROM and JoinClause.Left) are not slots a release goes on into. Well-formedness of a history (builders write only objects they obtained, no release puts an object that is already pooled) is measured on the implementation: pointer-level ownership histories (parse/hold/release/pool users/other goroutines/GC, shared sub-trees, nodes wider than the cut-off, nested sub-queries) are checked directly and replayed in the model. Slices and strings handed out (tokens, comments, extraction lists, scan findings, ParseMultiple/ParseWithRecovery results): alias table from a behavioural probe, all rows alias-free, with the generic lemma alias_free_stable.',
+    note=common.BASE_NOTE + 'sync.Pool modelled as nondeterministic choice among pooled objects or a new one (the history chooses); operations of different holders interleave at the granularity of one pool operation or one field write; ownership tables are probe-derived (one sentinel per slot) and validated by the history correspondence.',
     design='6/C09')
 
 
@@ -17,13 +17,16 @@ def run(tier):
     try:
         with common.Lock():
             tables = common.stage_tables()
+            static = common.stage_gotables()
             pt, _ = gen.emit_pools(tables)
+            ot, _ = gen09.emit_all()
             ok_inst, ok_props, full_ok, logs = common.coq_stage(
-                rp, ["theories/Inst/Inst_C09.vo", "theories/Proofs/PoolP.vo"], "theories/Props/C09.v",
-                ["Props.C09.C09_get_is_fresh_except"], full="theories/Props/C09_full.v" if not pt["known"] else None,
-                inst_names=["Inst_C09.cleared_ok"])
+                rp, ["theories/Inst/Inst_C09.vo", "theories/Proofs/PoolP.vo", "theories/Proofs/OwnP.vo"], "theories/Props/C09.v",
+                own09.THEOREMS, full="theories/Props/C09_full.v" if not pt["known"] else None,
+                inst_names=own09.INST)
     except common.StageError as e:
         return common.stage_fail(rp, e)
+    own_bad = own09.table_facts(rp, ot, static)
     sd = common.stage_dir()
     kf = {(k["signature"]["via"], k["signature"]["pool"], k["signature"]["field"]): k for k in common.known_findings("C09")
           if k.get("signature", {}).get("kind") == "pool_field" and k["status"] == "known"}
@@ -38,7 +41,7 @@ def run(tier):
                           "replay": "fill every field of a %s, release it through %s, obtain it again: field %s is %s" % (r["pool"], r["via"], r["field"], r["status"]),
                           "explanation": "a node obtained from the pool is distinguishable from a fresh one"},
                          "pool_%s_%s_%s" % (r["pool"], r["field"], r["via"]))
-    if not ok_inst and not [1 for key, r in pt["dirty"] if (r["via"], r["pool"], r["field"]) not in kf]:
+    if not ok_inst and not own_bad and not [1 for key, r in pt["dirty"] if (r["via"], r["pool"], r["field"]) not in kf]:
         rp.violation({"kind": "proof", "theorem": "Inst_C09", "log": logs["inst"][-3000:]}, "inst_c09", no_input=True)
     if ok_inst and not ok_props:
         rp.violation({"kind": "proof", "theorem": "Props/C09.v", "log": logs["props"][-3000:]}, "props_c09", no_input=True)
@@ -89,19 +92,68 @@ def run(tier):
         rp.violation({"kind": "oracle", "history": c, "seed": common.seed(),
                       "explanation": "a value held by the caller (tree / tokens / comments) changed because of later library activity"},
                      "hold_changed_%d" % i)
-    rp.cov["evaluations"] = ph["histories"] + hh["histories"] + len(pt["all"])
-    rp.cov["distinct_nontrivial"] = ph["gets_reused"] + hh["checks"]
-    rp.cov["rule"] = ("(1) probe table: every pooled type x every field x every release path, complete; (2) random put/get histories on the real pools "
-                      "(non-trivial = a Get that returned a previously released object, counted); (3) parse/hold/release/pool-churn/tokenizer-reuse/other-goroutine "
-                      "histories with a deep snapshot comparison of every held value after every step (counted: snapshot comparisons)")
+    # ownership histories on the real pools (pointer level), replayed in the Coq model
+    nown = 40 if tier == "quick" else 1200
+    oh, oerr = own09.run_histories(common.seed(), nown, tier)
+    if oh is None:
+        rp.violation({"kind": "harness", "detail": oerr}, "own_harness", no_input=True)
+        oh = {"histories": 0, "steps": 0, "checks": 0, "releases": 0, "objects_put": 0, "gets_reused": 0, "releases_beyond_cutoff": 0,
+              "trees_with_shared_objects": 0, "violations": [], "hist": [], "samples": []}
+    for i, v in enumerate((oh.get("violations") or [])[:5]):
+        rp.violation({"kind": "own-history", "seed": common.seed(), "n": nown, "tier": tier, "violation": v,
+                      "explanation": "pointer-level ownership check on the implementation: a held value changed, or an object has two holders"},
+                     "own_history_%d" % i)
+    hists = oh.get("hist") or []
+    mbad, mdiag, mshards, merr = ([], {}, 0, "")
+    if ok_inst and hists:
+        mbad, mdiag, mshards, merr = own09.model_check(hists)
+        if merr:
+            rp.violation({"kind": "model-eval", "detail": merr}, "own_model_eval", no_input=True)
+        for i in mbad[:5]:
+            rp.violation({"kind": "own-correspondence", "seed": common.seed(), "n": nown, "tier": tier, "history": hists[i]["trace"],
+                          "model": mdiag.get(i, ""), "pool_observed": hists[i].get("pool"), "held_observed": hists[i].get("held"),
+                          "explanation": "the ownership model instantiated with the release tables of this tree disagrees with the implementation on this history "
+                                         "(pool content, objects of a held tree, or an operation the model calls ill-formed: a Get of an object that is not pooled, a double Put)"},
+                         "own_model_%d" % i, no_input=not oh.get("violations"))
+    import hashlib
+    def nontrivial(h):
+        ops = h["ops"]
+        if any(o["op"] == "get" for o in ops):
+            return True                      # an object went through a pool into another tree
+        live = set()
+        for o in ops:
+            if o["op"] in ("alloc", "get"):
+                live.add(o["t"])
+            elif o["op"] == "release":
+                live.discard(o["t"])
+                if live:
+                    return True              # a release while another tree is held
+        return False
+    distinct_hist = {hashlib.sha1(json.dumps(h["ops"]).encode()).hexdigest() for h in hists if nontrivial(h)}
+    own_rows = [r for r in ot["rows"] if r["route"] != "none"]
+    rp.cov["evaluations"] = (len(pt["all"]) + len(own_rows) + len(ot["alias"]) + ph["histories"] + hh["histories"] + oh["histories"] + len(hists))
+    rp.cov["distinct_nontrivial"] = len(set(pt["all"])) + len({(r["tid"], r["slot"]) for r in own_rows if r["planted"]}) + len(distinct_hist)
+    rp.cov["rule"] = ("cases = pool-probe rows (type x field x release path) + release-descent probe rows (type x child slot) + aliasing probe rows + "
+                      "random put/get histories + hold histories + ownership histories on the real pools + the same ownership histories evaluated in the Coq model. "
+                      "distinct non-trivial = distinct pool-probe rows + distinct planted release-descent rows + distinct ownership histories (by operation sequence) in which "
+                      "an object passes through a pool into another tree or a tree is released while another one is held")
     rp.cov["pool_table_rows"] = len(pt["all"])
+    rp.cov["own_table"] = {"release_rows": len(own_rows), "pooled_types": len(ot["pooled"]), "descended_slots": len(ot["descend"]), "kept_slots": len(ot["keeps"]),
+                           "shared_slots": [r["type"] + "." + r["path"] for _, r in ot["shared"]], "share_scan": ot["share_stats"], "budget": ot["budget"],
+                           "alias_rows": len(ot["alias"]), "alias_probes": sum(r["probes"] for _, r in ot["alias"])}
     rp.cov["pool_history"] = {k: ph[k] for k in ("histories", "ops", "gets", "gets_reused")}
-    rp.cov["hold_history"] = {k: hh[k] for k in ("histories", "ops", "checks")}
-    rp.cov["samples"] = (ph.get("samples") or [])[:2] + (hh.get("samples") or [])[:2] + [{"table_row": tables["pools"][0]}]
-    rp.cov["notes"].append("ownership clause (held values never change; releasing one tree never changes another) is covered by the hold histories and the aliasing probes, not by a theorem: "
-                           "the Coq theorem covers the cleanliness clause for all histories")
-    rp.assumptions = ["sync.Pool returns only objects previously Put into the same pool or built by New (modelled as nondeterministic choice)",
-                      "the release paths are field-wise uniform in the released object's content (validated by random histories)"]
+    rp.cov["hold_history"] = {"histories": hh["histories"], "ops": hh["ops"], "snapshot_comparisons": hh["checks"]}
+    rp.cov["own_history"] = {"histories": oh["histories"], "steps": oh["steps"], "snapshot_comparisons": oh["checks"], "releases": oh["releases"],
+                             "objects_put": oh["objects_put"], "objects_reused_through_pools": oh["gets_reused"],
+                             "releases_beyond_cutoff": oh["releases_beyond_cutoff"], "trees_with_shared_objects": oh["trees_with_shared_objects"],
+                             "model_cases": len(hists), "model_shards": mshards, "model_disagreements": len(mbad), "cutoff_order_differs_from_model": len(mdiag.get("rescued") or []),
+                             "distinct_nontrivial_histories": len(distinct_hist), "lossy_histories": sum(1 for h in hists if h.get("lossy"))}
+    rp.cov["samples"] = (ph.get("samples") or [])[:1] + (hh.get("samples") or [])[:1] + (oh.get("samples") or [])[:2] + [{"table_row": tables["pools"][0]}, {"own_row": own_rows[0] if own_rows else None}]
+    rp.assumptions = ["sync.Pool returns only objects previously Put into the same pool or built by New (modelled as nondeterministic choice: the history chooses)",
+                      "the release paths are field-wise uniform in the released object's content (validated by random histories)",
+                      "tree builders (the parser, pool users) write only objects they obtained in the same build and no release puts an already pooled object (well-formedness of a history; "
+                      "measured on every implementation history at pointer level and by the model run of the same history)",
+                      "operations of different holders interleave at the granularity of one pool operation or one object write (Go memory-model races are C10's subject)"]
     return rp.finish()
 
 
@@ -114,4 +166,25 @@ def replay(path):
             if r["pool"] == d["pool"] and r["field"] == d["field"] and r["via"] == d["via"]:
                 print("now:", r)
                 return 0 if r["status"] in ("zero", "len0_clean") else 1
+    if d.get("kind") in ("own-table", "own-share", "alias", "own-hook", "alias-probe"):
+        # re-run the probes on the current tree and re-evaluate the table facts
+        rp = Report("C09", "replay")
+        n = own09.table_facts(rp, gen09.own_table(gen09.stage_own()), common.stage_gotables())
+        return 1 if n else 0
+    if d.get("kind") in ("own-history", "own-correspondence"):
+        oh, err = own09.run_histories(d["seed"], d["n"], d.get("tier", "quick"))
+        if oh is None:
+            print(err)
+            return 2
+        for v in oh.get("violations") or []:
+            print("still fails:", v)
+        if oh.get("violations"):
+            return 1
+        if d["kind"] == "own-correspondence":
+            gen09.emit_all()
+            common.coq_make(["theories/Inst/Inst_C09.vo", "theories/Proofs/OwnP.vo"])
+            bad, diag, _, merr = own09.model_check(oh.get("hist") or [])
+            print("model disagreements:", bad, merr)
+            return 1 if bad or merr else 0
+        return 0
     return 2
